@@ -317,6 +317,11 @@ def batch_cases():
     for name in ("l2", "cusum", "chg-l2", "l2saving", "loc-l2", "gvar"):
         for seed in range(6):
             out.append({"scorer": name, "n": 9, "seed": seed})
+    # scorers whose minimum size exceeds 2 (two columns: at least three rows per part), so that a row can fail the size
+    # requirement of ONE of its parts (inner interval, pooled surroundings) while other rows of the batch meet it
+    for name in ("loc-gcov", "loc-gcov-fixed", "gcov", "chg-gcov"):
+        for seed in range(4):
+            out.append({"scorer": name, "n": 11, "seed": seed, "p": 2})
     return out
 
 
@@ -324,10 +329,10 @@ def impl_batch(c):
     """batches of 2-4 rows in which valid and invalid rows (out of range, ties, inversions) occupy every position: a batch
     is accepted iff every row is (theorem checkCuts_ok_iff), and accepted batches score like their rows one by one"""
     n = c["n"]
-    X = data(n, 1, 7)
+    X = data(n, c.get("p", 1), 7)
     g = np.random.default_rng(c["seed"] + 1000 * len(c["scorer"]))
     try:
-        sc = mk(c["scorer"], 1).fit(X)
+        sc = mk(c["scorer"], c.get("p", 1)).fit(X)
         ms, k = int(sc.min_size), sc.expected_cut_entries
     except Exception as ex:
         return {"outcome": "other:" + type(ex).__name__, "msg": str(ex)[:200]}
